@@ -512,6 +512,29 @@ pub fn sparse_blocks_with(sigma: &[char], pair_sigma: &[char], tier: Tier) -> Ve
     out
 }
 
+/// Strings of a little over 1 MiB (thorough: 16 MiB for a few symbols): x a^N x, a^N x, x a^N -
+/// bulk paths that switch algorithm above a size threshold
+pub fn mega(sigma: &[char], tier: Tier) -> Vec<String> {
+    let mut out = Vec::new();
+    let take = tier.pick(20usize, sigma.len());
+    let sizes: &[(usize, usize)] = tier.pick(&[(1 << 20, usize::MAX)], &[(1 << 20, usize::MAX), (1 << 24, 4)]);
+    for &(n, limit) in sizes {
+        let run: String = "a".repeat(n);
+        for &x in sigma.iter().take(take.min(limit)) {
+            let mut s1 = String::with_capacity(n + 8);
+            s1.push(x);
+            s1.push_str(&run);
+            out.push(s1.clone());
+            s1.push(x);
+            out.push(s1);
+            let mut s2 = run.clone();
+            s2.push(x);
+            out.push(s2);
+        }
+    }
+    out
+}
+
 /// The structural families every string-level check runs on top of its tree and sweep: pumped
 /// runs, ASCII blocks over two fillers and sparse blocks over the check's alphabet - each at
 /// every placement of the tier - plus the long pumped runs (unplaced).
@@ -524,10 +547,12 @@ where
     placed.extend(ascii_blocks_with('0'));
     // pairs over the first 16 symbols (every alphabet lists its byte-shape and mapping classes first)
     placed.extend(sparse_blocks_with(sigma, &sigma[..sigma.len().min(16)], tier));
-    let mut long = pumped(&sigma[..sigma.len().min(6)], &PUMP_LENGTHS_LONG);
-    long.extend(pumped(&sigma[..sigma.len().min(3)], &PUMP_LENGTHS_HUGE));
+    let long = pumped(&sigma[..sigma.len().min(6)], &PUMP_LENGTHS_LONG);
+    let mut huge = pumped(&sigma[..sigma.len().min(3)], &PUMP_LENGTHS_HUGE);
+    huge.extend(mega(sigma, tier));
     let mut st = run_family_placed(&placed, &placements(tier), &f);
     st.merge(run_family(&long, &f));
+    st.merge(run_family(&huge, &f));
     st.add("family:placed_strings", placed.len() as u64);
     st.add("family:placements", placements(tier).len() as u64);
     st
@@ -600,8 +625,10 @@ pub fn run_family<F>(strings: &[String], f: F) -> Stats
 where
     F: Fn(&str, &mut Stats) + Sync,
 {
+    // long strings are few and expensive: one task each
+    let chunk = if strings.iter().map(|s| s.len()).max().unwrap_or(0) > 4096 { 1 } else { 256 };
     let shards: Vec<Stats> = strings
-        .par_chunks(256)
+        .par_chunks(chunk)
         .map(|chunk| {
             let mut st = Stats::default();
             for s in chunk {
